@@ -3,7 +3,6 @@ package types
 import (
 	"encoding/binary"
 	"fmt"
-	"strings"
 
 	errorsmod "cosmossdk.io/errors"
 	"cosmossdk.io/store/types"
@@ -118,9 +117,9 @@ func IterateConsensusStateAscending(clientStore storetypes.KVStore,
 
 	for ; iterator.Valid(); iterator.Next() {
 		key := iterator.Key()
-		keySplit := strings.Split(string(key), "/")
-		// processed time key in prefix store has format: "consensusStates/<height>"
-		if len(keySplit) != 2 {
+		// consensus state key in prefix store has format: "consensusStates/<height>", where
+		// <height> is 16 raw bytes that may contain '/'
+		if len(key) != len(host.KeyConsensusStatePrefix)+1+16 {
 			// ignore all not consensus state keys
 			continue
 		}
